@@ -73,6 +73,19 @@ def refRegisterOp (H : Hier) (ρ : RefReg) (op : Op) (auto : String) (exact : Bo
     cover := odSet op cov ρ.cover
     autoOps := odSet op auto ρ.autoOps }
 
+/-- a call that raises TypeError registers nothing: "registered" means the call returned.  The
+    validity of the arguments (`firstInvalid`: every handler the call would store is `False` or
+    callable) is plain bookkeeping shared with the model. -/
+def refRegisterChecked (H : Hier) (ρ : RefReg) (t : Ty) (exact : Bool) (kw : List (Op × Handler)) :
+    RefReg :=
+  if (firstInvalid (newOpMap H ρ.handlers ρ.autoOps t kw)).isSome then ρ
+  else refRegister H ρ t exact kw
+
+def refRegisterOpChecked (H : Hier) (ρ : RefReg) (op : Op) (auto : String) (exact : Bool)
+    (known : List Ty) : RefReg :=
+  if (firstInvalidAuto H auto known (ρ.table op)).isSome then ρ
+  else refRegisterOp H ρ op auto exact known
+
 /-- the handlers a lookup may return (`none` = no handler: `False` / UnregisteredTarget) -/
 def refAnswers (H : Hier) (ρ : RefReg) (op : Op) (t : Ty) : List Handler :=
   let tab := ρ.table op
@@ -103,9 +116,10 @@ def refMk (H : Hier) (S : Setup) (orders : List (List Ty)) : RegKind → RefReg
   | .registry d => refFresh H S d
 
 def refStep (H : Hier) (w : List RefReg) : Action → List RefReg
-  | .register i t e kw => updateAt (fun ρ => refRegister H ρ t e kw) i w
-  | .registerOp i op a e known => updateAt (fun ρ => refRegisterOp H ρ op a e known) i w
+  | .register i t e kw => updateAt (fun ρ => refRegisterChecked H ρ t e kw) i w
+  | .registerOp i op a e known => updateAt (fun ρ => refRegisterOpChecked H ρ op a e known) i w
   | .lookup .. => w
+  | .badCall .. => w          -- a rejected call is not a registration
 
 /-! ### observation and checker -/
 
@@ -119,7 +133,9 @@ def answerOk (acc : List Handler) : Answer → Bool
 /-- The property evaluated on a history and the answers observed for its lookups: every lookup,
     at the moment it happens, returns the handler of an allowed type of *its own* registry
     (immediacy: the reference state already contains every earlier registration; isolation: only
-    actions on the same registry touch its reference state; purity: the reference has no memo). -/
+    actions on the same registry touch its reference state; purity: the reference has no memo;
+    rejected calls: a `register` / `register_op` call that raises TypeError leaves the reference
+    state as it was, so every later lookup must answer as if the call had never been made). -/
 def checkRun (H : Hier) : List RefReg → List Action → List (Option Answer) → Bool
   | _, [], [] => true
   | w, a :: as, o :: os =>
